@@ -234,8 +234,9 @@ def mixed(pid, keys, lean, proved_text, technique, extra_trusted=()):
 CFG_TRUST = ['CFG._productions is taken to be a set (what every constructor call in the library passes); Production equality is equality of head and body',
              'lemma InBody(Rev s) = InBody s (bridge/cfgrev.lean) and closure-induction schema instances for CReach / UReach',
              'language preservation of the clean-up steps from their proved structure: textbook theorems (Hopcroft-Motwani-Ullman 7.2, 7.7, 7.13), assumed, backed by the bounded language comparison']
-mixed('C09', ['CFG.get_reachable_symbols', 'CFG.get_unit_pairs', 'CFG.eliminate_unit_productions', 'CFG.remove_useless_symbols', 'fn.get_productions_d'], [],
-      'Deductive for get_reachable_symbols (= closure of "occurs in a body of"), get_unit_pairs (= unit-derivability from every variable), eliminate_unit_productions (exactly the non-unit bodies of every unit-reachable variable, and no unit production in the result), remove_useless_symbols (modular: given the assumed contract of get_generating_symbols the result keeps exactly the productions over generating symbols whose head is reachable, and only generating and reachable symbols) and the helper get_productions_d.',
+mixed2('C09', [(CFGM, k) for k in ('CFG.get_reachable_symbols', 'CFG.get_unit_pairs', 'CFG.eliminate_unit_productions', 'CFG.remove_useless_symbols', 'fn.get_productions_d')]
+       + [('contracts.cfg_eps', 'CFG.remove_epsilon'), ('contracts.cfg_eps', 'fn.remove_nullable_production'), ('contracts.cfg_eps_sub', 'fn.remove_nullable_production_sub'), ('contracts.cfg_eps_ne', 'fn.remove_nullable_production_sub#no-epsilon')], [],
+      'Deductive for remove_epsilon: the result has exactly the productions head -> b\' where b\' is a non-empty body obtained from a body of the grammar by deleting some occurrences of nullable symbols (relation Sub, proved for the recursive helper remove_nullable_production_sub in two halves and for remove_nullable_production), for the least set of nullable symbols (proved in contracts/cfg_gen.py); no epsilon production, same start symbol. Deductive for get_reachable_symbols (= closure of "occurs in a body of"), get_unit_pairs (= unit-derivability from every variable), eliminate_unit_productions (exactly the non-unit bodies of every unit-reachable variable, and no unit production in the result), remove_useless_symbols (modular: given the assumed contract of get_generating_symbols the result keeps exactly the productions over generating symbols whose head is reachable, and only generating and reachable symbols) and the helper get_productions_d.',
       'contract-based deductive verification (pyvc + z3) of the structural CFG clean-up functions; bounded run-time contract checking for nullable/generating counters, epsilon removal, terminal lifting, binarisation and for the language statements', CFG_TRUST + ['get_generating_symbols is proved in contracts/cfg_gen.py (worklist with counters, against the least-set spec GNS); the table builder CFG._set_impacts_and_remaining_lists is proved there too (one counter cell per non-empty production initialised with the body length, one _impacts entry per body position; ghost fields pr / cell relate cells and productions), and the worklist is proved to give every counter back; assumed: the List.countP / List.count / List.take facts proved in bridge/count.lean (NP, Occ, OccPre), the induction principle of the least set (one instance), Python lists of ints viewed as (length, array) with non-negative indices only, and that a freshly constructed grammar has its memo fields and tables set to None (the representation invariant then holds for every object reachable through the proved functions)'])
 mixed2('C10', [('contracts.cfg', 'CFG.reverse'), ('contracts.cfg', 'CFG.__invert__')] + [('contracts.cfg_subst', k) for k in ('CFG.substitute', 'CFG.union', 'CFG.concatenate', 'CFG.get_closure', 'CFG.get_positive_closure', 'CFG.__or__', 'CFG.__add__')], ['bridge/cfgrev.lean'],
       'Deductive for CFG.reverse: the result has exactly the productions with reversed bodies, same symbols and start symbol (all grammars); Mathlib ContextFreeGrammar.language_reverse gives the mirror language. '
